@@ -10,7 +10,8 @@ for n in $names; do
   for p in $pid $EXTRA; do
     out=$(./check $p --tier ${TIER:-quick} 2>&1)
     v=$(echo "$out" | grep -c '^VIOLATION')
-    res="$res $p:$([ $v -gt 0 ] && echo CAUGHT || echo missed)$(echo "$out" | grep '^VIOLATION' | grep -q no-failing && echo '(nfi)')"
+    kinds=$(python3 -c "import json;e=json.load(open('evidence/$p.json'));print(','.join(sorted({f.get('kind','?') for f in e['coverage'].get('findings',[])}))+('|broken:'+str(len(e['coverage'].get('broken_obligations',[]))) if e['coverage'].get('broken_obligations') else ''))" 2>/dev/null)
+    res="$res $p:$([ $v -gt 0 ] && echo CAUGHT || echo missed)$(echo "$out" | grep '^VIOLATION' | grep -q no-failing && echo '(nfi)')[$kinds]"
   done
   git -C /repo checkout -- .
   echo "$n ->$res"
